@@ -1028,6 +1028,11 @@ func corpus() []Job {
 			Threads: [][]string{{"removeall " + h("/e")}, {"stat " + h("/e/s/g"), "stat " + h("/e")}}},
 		// two Mkdir of one name
 		{Threads: [][]string{{"mkdir " + h("/d") + " 493"}, {"mkdir " + h("/d") + " 493"}}},
+		// names that merely begin with two dots are ordinary names: a subtree is removed / moved with them
+		{Setup: []string{"mkdirall " + h("/v/a/..data") + " 493", "create " + h("/v/a/..data/f"), "create " + h("/v/a/..2026")},
+			Threads: [][]string{{"removeall " + h("/v/a")}, {"stat " + h("/v/a/..data/f"), "stat " + h("/v/a/..2026")}}},
+		{Setup: []string{"mkdirall " + h("/d/..data") + " 493", "create " + h("/d/..data/f")},
+			Threads: [][]string{{"rename " + h("/d") + " " + h("/e")}, {"stat " + h("/e/..data/f"), "stat " + h("/d/..data/f")}}},
 		// a metadata call racing with a rename of its target and a Stat of the new name
 		{Setup: []string{"create " + h("/a")}, Threads: [][]string{{"chmod " + h("/a") + " 384"}, {"rename " + h("/a") + " " + h("/b"), "statperm " + h("/b")}}},
 		{Setup: []string{"create " + h("/a")}, Threads: [][]string{{"chtimes " + h("/a") + " 5"}, {"remove " + h("/a"), "create " + h("/a"), "stat " + h("/a")}}},
